@@ -17,10 +17,13 @@
  * project authors may be found in the CONTRIBUTORS.md file in the root
  * of the source tree.
  */
+#include <sys/select.h>
+
 #include <algorithm>
 
 #include "fd_event.h"
 #include "loop.h"
+#include <tbox/base/log.h>
 #include <tbox/base/assert.h>
 #include <tbox/base/defines.h>
 #include <tbox/base/wrapped_recorder.h>
@@ -46,6 +49,12 @@ bool SelectFdEvent::initialize(int fd, short events, Mode mode)
 {
     if (isEnabled())
         return false;
+
+    //! select() cannot watch a descriptor >= FD_SETSIZE: FD_SET() on it writes outside the fd_set
+    if (fd >= FD_SETSIZE) {
+        LogWarn("fd:%d is not below FD_SETSIZE:%d, the select engine cannot watch it", fd, FD_SETSIZE);
+        return false;
+    }
 
     if (fd != fd_) {
         wp_loop_->unrefFdSharedData(fd_);
